@@ -273,9 +273,12 @@ def SUM(*args):
 
 
 @dispatcher.register_for('SUMIF')
-def SUMIF(args, criteria):
+def SUMIF(args, criteria, sum_range=None):
     predicate = utils.parse_criteria(criteria)
-    return sum(a for a in utils.iflatten(args) if predicate(a))
+    if sum_range is None:
+        return sum(a for a in utils.iflatten(args) if predicate(a))
+    # the cells of sum_range whose partners in the criteria range satisfy the criterion
+    return sum(b for a, b in zip(utils.iflatten(args), utils.iflatten(sum_range)) if predicate(a))
 
 
 @dispatcher.register_for('CEILING', 'CEILING.MATH', 'CEILING.PRECISE')
